@@ -342,25 +342,8 @@ func c11() {
 			jStream(data, m, rndn(len(data)+1))
 		}
 	}
-	// (3b) scan-flag hygiene across refills: buffers full of plain text (no backslash; printable ASCII only, or with
-	// new lines) followed, after the 4096 / 32768 / 65536 fill boundaries, by strings that need the slow path (escaped
-	// quote, invalid escape, raw control character, non-ASCII), and the reverse order
-	for _, boundary := range []int{4096, 32768, 65536} {
-		for _, sep := range []string{" ", "\n"} {
-			for _, tail := range []string{"\"x\\\"y\" 1", "\"bad\\qescape\" 1", "\"tab\there\" 1", "\"\\u00e9\" 2", "\"é\" 3", "\"a\\\\\" \"b\"", "[\"\\\"\",\"\\n\"] 4"} {
-				var b bytes.Buffer
-				for b.Len() < boundary+100 {
-					b.WriteString("\"aaaaaaaaaaaaaa\"" + sep)
-				}
-				plain := append([]byte(nil), b.Bytes()...)
-				b.WriteString(tail)
-				for _, m := range []string{"all", "r5000"} {
-					jStream(b.Bytes(), m, -1)
-					jStream(append([]byte(tail+sep), plain...), m, -1)
-				}
-			}
-		}
-	}
+	// (3b) scan-flag hygiene across refills (shared with C05: Decoder framing is one of the syntax-only consumers)
+	flagHygieneStreams()
 	// (4) a stream that ends inside a value / with a syntax error
 	for _, s := range []string{"1 2 [", "1 tru", "{\"a\":1} {\"b\"", "1 2 x 3", "\"abc", "[1,2]]", " ", "", "1", "12", "1 ", "nul", "[] {} 1.", "1e", "-"} {
 		for _, m := range modes {
@@ -385,5 +368,28 @@ func fullStreamValues(data []byte) []string {
 		var cb bytes.Buffer
 		stdjson.Compact(&cb, rm)
 		o = append(o, cb.String())
+	}
+}
+
+// flagHygieneStreams: buffers full of plain text (no backslash; printable ASCII only, or with new lines) followed,
+// after the 4096 / 32768 / 65536 fill boundaries, by strings that need the slow path (escaped quote, invalid escape,
+// raw control character, non-ASCII), and the reverse order. The whole-buffer scan flags computed for one fill must not
+// survive into the next.
+func flagHygieneStreams() {
+	for _, boundary := range []int{4096, 32768, 65536} {
+		for _, sep := range []string{" ", "\n"} {
+			for _, tail := range []string{"\"x\\\"y\" 1", "\"bad\\qescape\" 1", "\"tab\there\" 1", "\"\\u00e9\" 2", "\"é\" 3", "\"a\\\\\" \"b\"", "[\"\\\"\",\"\\n\"] 4"} {
+				var b bytes.Buffer
+				for b.Len() < boundary+100 {
+					b.WriteString("\"aaaaaaaaaaaaaa\"" + sep)
+				}
+				plain := append([]byte(nil), b.Bytes()...)
+				b.WriteString(tail)
+				for _, m := range []string{"all", "r5000"} {
+					jStream(b.Bytes(), m, -1)
+					jStream(append([]byte(tail+sep), plain...), m, -1)
+				}
+			}
+		}
 	}
 }
